@@ -119,7 +119,7 @@ def run(ck, facts, tier):
     base = "<chalk_solve::wf::InputTypeCollector as chalk_ir::visit::TypeVisitor>::"
     vt = need_body(ck, facts, R, base + "visit_ty")
     if vt:
-        ms = enum_matches(vt.thir, "chalk_ir::TyKind")
+        ms = enum_matches(facts.thir(vt.key), "chalk_ir::TyKind")
         if len(ms) != 1:
             ck.violation(R, "visit_ty:match", vt.where(), "expected one match on TyKind")
         else:
@@ -167,7 +167,7 @@ def run(ck, facts, tier):
             ck.floor(R, "visit_ty.arms", n, 24)
     vw = need_body(ck, facts, R, base + "visit_where_clause")
     if vw:
-        ms = enum_matches(vw.thir, "chalk_ir::WhereClause")
+        ms = enum_matches(facts.thir(vw.key), "chalk_ir::WhereClause")
         if len(ms) != 1:
             ck.violation(R, "visit_where_clause:match", vw.where(), "expected one match on WhereClause")
         else:
